@@ -122,6 +122,9 @@ func (src *Rollout) ConvertTo(dst conversion.Hub) error {
 			CanaryReplicas:      src.Status.CanaryStatus.CanaryReplicas,
 			CanaryReadyReplicas: src.Status.CanaryStatus.CanaryReadyReplicas,
 		}
+		// v1beta1 mirrors the step cursor at the top level of the status
+		obj.Status.CurrentStepIndex = obj.Status.CanaryStatus.CurrentStepIndex
+		obj.Status.CurrentStepState = obj.Status.CanaryStatus.CurrentStepState
 		return nil
 	default:
 		return fmt.Errorf("unsupported type %v", t)
